@@ -146,9 +146,13 @@ def one_time_run(d, paths, tag):
     os.chdir(d)
     err = io.StringIO()
     try:
+        # the documented switches that do not change what is to be done: verbose output (every
+        # other run), blanks around the comma-separated paths
+        extra = ["-v"] if str(tag) == "2" or len(paths) % 2 == 0 else []
         with contextlib.redirect_stderr(err):
-            code, out = run_main(signonetime, ["signonetime.py", "-a", ",".join(paths), "-p",
-                                               pub_path])
+            code, out = run_main(signonetime, ["signonetime.py", "-a",
+                                               (" , " if extra else ",").join(paths), "-p",
+                                               pub_path] + extra)
     finally:
         os.chdir(cwd)
         ecdsa.SigningKey.generate = orig_generate
